@@ -47,6 +47,12 @@ func (a *application) start(mode gen.ApplicationMode, options gen.ApplicationOpt
 		appEnv[k] = v
 	}
 
+	// prepare the state of this run before the first member is spawned:
+	// a member may terminate (and a stop may be requested) while we are still starting
+	a.stopped = make(chan struct{})
+	a.mode = mode
+	a.reason = nil
+
 	// start items
 	for _, item := range a.spec.Group {
 		opts := gen.ProcessOptionsExtra{
@@ -74,9 +80,7 @@ func (a *application) start(mode gen.ApplicationMode, options gen.ApplicationOpt
 		a.group.Store(pid, true)
 	}
 
-	a.stopped = make(chan struct{})
 	a.node.log.Info("application %s (%s) started", a.spec.Name, a.mode)
-	a.mode = mode
 	a.parent = options.CorePID.Node
 
 	a.started = time.Now().Unix()
@@ -120,18 +124,20 @@ func (a *application) stop(force bool, timeout time.Duration) error {
 	// update mode to prevent triggering 'permantent' mode
 	a.mode = gen.ApplicationModeTemporary
 
+	// set the reason before stopping the members: the last of them
+	// finalizes the stop and passes the reason to the Terminate callback
+	if force {
+		a.reason = gen.TerminateReasonKill
+	} else {
+		a.reason = gen.TerminateReasonShutdown
+	}
+
 	for _, pid := range a.members() {
 		if force {
 			a.node.Kill(pid)
 		} else {
 			a.node.SendExit(pid, gen.TerminateReasonShutdown)
 		}
-	}
-
-	if force {
-		a.reason = gen.TerminateReasonKill
-	} else {
-		a.reason = gen.TerminateReasonShutdown
 	}
 
 	select {
